@@ -604,6 +604,15 @@ theorem session_ok_valid (src : Src) (start : X) (nd : Bool) (ops : List Op) (pr
     rw [valid_runs _ _ _ hv] at h
     cases h; rfl
 
+/-- **every running mode**: each execution of the pipeline inside an Observation or a Calibration
+is the run of a fresh detector, whatever the detector handed in (or left by the previous
+evaluation) held — the reset is part of the engine `run_pipeline`, not of Exposure mode -/
+theorem runMany_each_fresh (r : Readout) (priors : List Det) (w : Nat → Det → Det) :
+    ∀ x ∈ runMany r priors w, x = runPipeline r freshDet w := by
+  intro x hx
+  obtain ⟨p, _, rfl⟩ := List.mem_map.mp hx
+  rfl
+
 -- non-vacuity: the setter lets a non-monotonic schedule into the object; the run refuses it
 example :
     Readout.make (.seq [X.fin 1, X.fin 2]) (X.fin 0) false = .ok ⟨[X.fin 1, X.fin 2], X.fin 0, false⟩ ∧
